@@ -2,7 +2,7 @@
 import re
 from ..engine import rule, ok, bad, missing
 from ..sym import show
-from ..table import render, strip_ver
+from ..table import render, strip_ver, summarize
 from ..facts import callee, strip_lt
 from .. import setexpr as SX
 from ..dom import call_sites, guard_strings, dominating_guards, or_guarded
@@ -515,3 +515,66 @@ def leaf_dot(ctx):
         if s not in seen:
             out.append(bad("dot|missing|%s" % s, "the '.' arm has no path for flag s = %s" % s, b.loc()))
     return out
+
+
+@rule("CLASS-ITEM-FLOW", ["C09", "C07"], floor=4)
+def class_item_flow(ctx):
+    """One turn of the item loop of parse_character_class never loses a character: a single character parsed in the
+    turn is added (add_char), becomes the end of the range being defined (add_range with it as end point), or is
+    remembered as the start of a range - and it is remembered only when the next character is a '-' that the next
+    turn will treat as the range operator (not the '-[' of a subtraction, not the '-]' of a trailing literal
+    hyphen), so that a pending range start is always consumed.  The hyphen turn that finds a pending range start
+    switches to "defining a range" and nothing else."""
+    b = ctx.body(PCC)
+    if b is None:
+        return [missing(PCC)]
+    from ..engine import rec as _rec, emit as _emit
+    from ..facts import strip_lt
+    d = {}
+    loops = b.natural_loops()
+    if not loops:
+        return [bad("loop", "parse_character_class has no loop", b.loc())]
+    h = max(loops, key=lambda x: len(loops[x]))
+
+    def local(name, ty):
+        c = [i for i, l in enumerate(b.locals) if l.get("name") == name and strip_lt(l["ty"]) == ty]
+        return c[0] if len(c) == 1 else None
+
+    SC, RS, DR = local("simple_char", "std::option::Option<char>"), local("range_start", "std::option::Option<char>"), local("defining_range", "bool")
+    if None in (SC, RS, DR):
+        return [bad("locals", "parse_character_class no longer has the locals simple_char / range_start / defining_range (restructured; re-audit)", b.loc())]
+    TF = 'ReCompiler::there_follows(a1, "%s")'
+    for p in ctx.walk(b, start_bb=h).paths:
+        if not p.end.startswith("loop"):
+            continue
+        gs = [strip_ver(g) for g in summarize(p)[0]]
+        loc = b.loc(p.blocks[-1])
+        env = p.env
+        sc, rs, dr = env.get(SC), env.get(RS), env.get(DR)
+        sc_s = strip_ver(show(sc)) if sc is not None else ""
+        rs_s = strip_ver(show(rs)) if rs is not None else ""
+        calls = [(e[1].split("::")[-1], [strip_ver(render(x)) for x in e[2]]) for e in p.effects if e[0] == "call"]
+        m = re.match(r"^Option::Some\{0: (.*)\}$", sc_s)
+        dr_s = strip_ver(show(dr)) if dr is not None else ""
+        # invariant used below: defining_range implies range_start.is_some()
+        if dr_s == "true":
+            _rec(d, "defining-range-implies-range-start", ("isSome(uninit(%d))" % RS) in gs and rs_s in ("", "uninit(%d)" % RS), "defining_range is switched on on a path that does not know range_start to be set", loc)
+        if rs_s == "Option::None":
+            _rec(d, "defining-range-implies-range-start", dr_s == "false", "range_start is cleared while defining_range stays on", loc)
+        infeasible = ("uninit(%d)" % DR) in gs and ("variant(uninit(%d))=None" % RS) in gs
+        if m and not infeasible:
+            c = m.group(1)
+            added = any(n == "add_char" and a[1:] == [c] for n, a in calls)
+            ranged = any(n == "add_range" and a[1].endswith(", %s)" % c) for n, a in calls)
+            kept = rs_s == sc_s
+            erred = False
+            _rec(d, "character-not-lost", added or ranged or kept, "a character parsed in this turn (%s) is neither added, nor made the end of a range, nor remembered as a range start" % c[:60], loc)
+        if rs_s.startswith("Option::Some{"):
+            want = [TF % "-", "!" + TF % "-[", "!" + TF % "-]"]
+            _rec(d, "range-start-only-before-range-hyphen", all(w in gs for w in want), "a character is remembered as the start of a range although the following '-' is not (known to be) the range operator: the hyphen turn will take it as a subtraction or as a trailing literal and the remembered character is dropped ([a-] loses the a); guards %s" % [g for g in gs if "there_follows" in g][:5], loc)
+        if any(g == "isSome(uninit(%d))" % RS for g in gs) and any(g.endswith("pattern[a1.idx]='-'") for g in gs):
+            _rec(d, "hyphen-after-range-start-defines-range", strip_ver(show(dr)) == "true" and not any(n in ("add_char", "add_range") for n, a in calls), "a hyphen that follows a remembered range start must switch to defining a range (and add nothing)", loc)
+    for k in ("character-not-lost", "range-start-only-before-range-hyphen", "hyphen-after-range-start-defines-range", "defining-range-implies-range-start"):
+        if k not in d:
+            d[k] = [False, "the item loop of parse_character_class no longer shows a path for clause %s (restructured; re-audit)" % k, b.loc()]
+    return _emit(d)
